@@ -366,8 +366,8 @@ struct SFrame {
 #[derive(Clone, Debug)]
 struct Scope {
     frames: Vec<SFrame>,
-    /// names bound only on paths that may not execute
-    maybe: Vec<String>,
+    /// names bound only on paths that may not execute, with the loop depth they live at
+    maybe: Vec<(String, usize)>,
 }
 
 impl Scope {
@@ -393,28 +393,40 @@ impl Scope {
     fn innermost_counter(&self) -> Option<&str> {
         self.frames.iter().rev().find(|f| !f.tentative).and_then(|f| f.counter.as_deref())
     }
+    fn real_depth(&self) -> usize {
+        self.frames.iter().filter(|f| !f.tentative).count()
+    }
     fn pop(&mut self) {
         let f = self.frames.pop().unwrap();
+        if !f.tentative {
+            // a loop frame ends at parse time as well: everything bound inside is gone
+            let d = self.real_depth();
+            self.maybe.retain(|(_, depth)| *depth <= d);
+            return;
+        }
+        let d = self.real_depth();
         for (n, small) in f.vars {
             let mut found = false;
-            if f.tentative {
-                // may have rebound an outer variable of the same real frame: keep it definite,
-                // but it is small only if both are
-                for g in self.frames.iter_mut().rev() {
-                    if let Some(e) = g.vars.iter_mut().find(|(m, _)| *m == n) {
-                        e.1 = e.1 && small;
-                        found = true;
-                        break;
-                    }
-                    if !g.tentative {
-                        break;
-                    }
+            // may have rebound an outer variable of the same real frame: keep it definite,
+            // but it is small only if both are
+            for g in self.frames.iter_mut().rev() {
+                if let Some(e) = g.vars.iter_mut().find(|(m, _)| *m == n) {
+                    e.1 = e.1 && small;
+                    found = true;
+                    break;
+                }
+                if !g.tentative {
+                    break;
                 }
             }
-            if !found && !self.maybe.contains(&n) {
-                self.maybe.push(n);
+            // bound in a while body only: in scope for the parser, maybe unbound at run time
+            if !found && !self.maybe.iter().any(|(m, _)| *m == n) {
+                self.maybe.push((n, d));
             }
         }
+    }
+    fn maybe_names(&self) -> Vec<String> {
+        self.maybe.iter().map(|(n, _)| n.clone()).collect()
     }
 }
 
@@ -481,7 +493,7 @@ fn gen_leaf(ch: &mut Ch, env: &ExprEnv) -> Expr {
     let nv = env.vars.len() as u32;
     let no = env.outs.len() as u32;
     let nm = env.maybe.len() as u32;
-    match ch.weighted(&[4, 3 * nv.min(1), 2 * no.min(1), nm.min(1)]) {
+    match ch.weighted(&[4, 3 * nv.min(1), 2 * no.min(1), 3 * nm.min(1)]) {
         0 => gen_lit(ch, env.cfg),
         1 => Expr::Var(env.vars[ch.upto(env.vars.len())].0.clone()),
         2 => Expr::Var(env.outs[ch.upto(env.outs.len())].clone()),
@@ -624,18 +636,15 @@ pub fn is_ident(s: &str) -> bool {
 }
 
 impl<'a> PGen<'a> {
-    fn env<'b>(&'b self, vars: &'b [(String, bool)]) -> ExprEnv<'b> {
-        ExprEnv {
-            vars,
-            outs: if self.cfg.reads { &self.outs } else { &[] },
-            maybe: if self.cfg.maybe_unbound_refs { &self.scope.maybe } else { &[] },
-            cfg: &self.cfg.expr,
-        }
-    }
-
     fn expr(&mut self, ch: &mut Ch, depth: u32) -> Expr {
         let vars = self.scope.visible();
-        let env = self.env(&vars);
+        let maybe = if self.cfg.maybe_unbound_refs { self.scope.maybe_names() } else { vec![] };
+        let env = ExprEnv {
+            vars: &vars,
+            outs: if self.cfg.reads { &self.outs } else { &[] },
+            maybe: &maybe,
+            cfg: &self.cfg.expr,
+        };
         gen_expr(ch, depth, &env)
     }
 
@@ -783,16 +792,25 @@ impl<'a> PGen<'a> {
     }
 
     fn let_stmt(&mut self, ch: &mut Ch) -> Stmt {
-        let forbidden = if self.cfg.counter_rebind {
-            None
-        } else {
-            self.scope.innermost_counter().map(|s| s.to_string())
-        };
+        let forbidden = self.scope.innermost_counter().map(|s| s.to_string());
         let mut name = VAR_NAMES[ch.upto(VAR_NAMES.len())].to_string();
         if Some(&name) == forbidden.as_ref() {
             name = "s".to_string();
             if Some(&name) == forbidden.as_ref() {
                 name = "x1".to_string();
+            }
+        }
+        if self.cfg.counter_rebind && ch.chance(1, 5) {
+            // rebind the counter of the innermost loop frame, in ways that cannot make the
+            // loop run for ever: move it forward, or to a 64-bit boundary value
+            if let Some(c) = self.scope.innermost_counter().map(|s| s.to_string()) {
+                let e = match ch.upto(3) {
+                    0 => Expr::bin(BinOp::Add, Expr::var(&c), Expr::lit(ch.range(0, 2) as u64)),
+                    1 => Expr::lit(i64::MAX as u64),
+                    _ => Expr::lit(i64::MAX as u64 - 1),
+                };
+                self.scope.bind(&c, false);
+                return Stmt::Let(c, e);
             }
         }
         // small right-hand sides keep the variable usable as a loop bound
